@@ -145,7 +145,7 @@ func executeRun(s *RunSpec, runIdx int, racePath string) (doneEv, *violEv) {
 			if op.K == opSend && !r.skipped {
 				sharedMsgs++
 			}
-			if opLibrary(op.K) && r.siteHash != ref.res[t][i].siteHash {
+			if s.Sched.Gran != granOp && opLibrary(op.K) && r.siteHash != ref.res[t][i].siteHash {
 				d.Divergent++
 			}
 			for _, p := range r.parts {
